@@ -565,7 +565,7 @@ def run_pca(case, obs):
         obs.cell("pca:subspace_not_promised")
         return
     obs.cell("pca:subspace_judged")
-    tg = {"symptom": "not_leading_subspace"}
+    tg = {"symptom": "not_leading_subspace", "check": "leading_subspace"}
     obs.close("leading_subspace_angle" + sfx, sin_angle(V, Vo[:, :k]), 0.0, t_sub, scale=1.0, tags=tg)
     cY = Y.conj().T @ Y / n
     obs.close("pc_covariance_is_leading_eigs" + sfx, cY, np.diag(lam_o[:k]), t_sub, scale=float(lam_o[0]), tags=tg)
